@@ -190,6 +190,52 @@ func runC04(em *vEmitter, r *vRng) {
 			}
 		}
 	}
+	// the verdict follows the store, not what a frontend saw earlier: log in on every frontend, change
+	// the password (or remove the user) through ANOTHER way in - a second web listener of the same agent,
+	// the agent's interface as another frontend would use it, the command line - and ask again at once
+	{
+		mux2, _ := newWebHandler(api)
+		changes := []string{"other-listener", "interface", "cli", "remove"}
+		for ci, how := range changes {
+			a := accts[1+ci]
+			if !utf8.ValidString(a.user) || !utf8.ValidString(a.pw) {
+				continue
+			}
+			for _, fe := range fes {
+				if observed, skipped := probe(fe, q{a.user, a.pw}); !skipped {
+					record(fe, q{a.user, a.pw}, observed, "frontend-before-change/")
+				}
+			}
+			newpw := "changed-" + a.pw
+			switch how {
+			case "other-listener":
+				b, _ := json.Marshal(map[string]string{"username": a.user, "oldpassword": a.pw, "newpassword": newpw})
+				rec := httptest.NewRecorder()
+				mux2.ServeHTTP(rec, httptest.NewRequest("POST", "/api/update", strings.NewReader(string(b))))
+				if rec.Code != http.StatusOK {
+					api.Update(a.user, newpw)
+				}
+			case "interface":
+				api.Update(a.user, newpw)
+			case "cli":
+				cmd := exec.Command(bin, "--store", ms.cfgfile, "update", a.user, newpw)
+				if err := cmd.Run(); err != nil {
+					api.Update(a.user, newpw)
+				}
+			case "remove":
+				api.Remove(a.user)
+			}
+			for rep := 0; rep < 2; rep++ {
+				for _, fe := range fes {
+					for _, x := range []q{{a.user, a.pw}, {a.user, newpw}} {
+						if observed, skipped := probe(fe, x); !skipped {
+							record(fe, x, observed, "frontend-after-change/"+how+"/")
+						}
+					}
+				}
+			}
+		}
+	}
 	// the same questions from many clients at once: nothing in the store changes, so every answer must
 	// still be the store's verdict for that very pair (answers must not cross between connections)
 	{
